@@ -6,12 +6,15 @@ PID = "C11"
 REWRITES = [("pkg/station/lib/registration_config.go", ["-swap", "net=vnet"]),
             ("pkg/station/lib/registration_ingest.go", ["-swap", "net/http=vhttp", "-go"]),
             # the DNS responder handles every datagram in a goroutine of its own: run inline so that a panic there is seen
-            ("pkg/registrars/dns-registrar/responder/responder.go", ["-go"])]
+            ("pkg/registrars/dns-registrar/responder/responder.go", ["-go"]),
+            # the connecting transport starts its dial and accept halves in goroutines: inline, same reason
+            ("pkg/transports/connecting/dtls/dtls.go", ["-go"])]
 INJECTS = [("harness/libacc/lib_verif.go", "pkg/station/lib/zz_verif_acc.go"),
            ("harness/c11/regprocessor_verif.go", "pkg/regserver/regprocessor/zz_verif_c11.go"),
            ("harness/c11/apiregserver_verif.go", "pkg/regserver/apiregserver/zz_verif_c11.go"),
            ("harness/c11/dnsregserver_verif.go", "pkg/regserver/dnsregserver/zz_verif_c11.go"),
            ("harness/c15/responder_verif.go", "pkg/registrars/dns-registrar/responder/zz_verif_c15.go"),
+           ("harness/c11/dtlsconn_verif.go", "pkg/transports/connecting/dtls/zz_verif_c11.go"),
            ("harness/c11/main/main.go", "internal/zzverif_c11/main.go")]
 ASSUME = ["small-scope statement: every input built from the per-field alphabets (a value on each side of every length and nil check read in the code) up to the stated structural bound; coverage-guided fuzzing belongs to another family and is not done",
           "each case runs under recover(); a hang shows up as a worker timeout (harness error naming the shard); the connection handler's byte-stream entry point is additionally covered by C03's stream set",
@@ -31,7 +34,7 @@ def run(tier, seed, t0):
             args.append(["-scenario", scen, "-tier", tier, "-budget", str(budget), "-shard", str(i), "-shards", str(n)])
     res = vlib.run_workers(w, args, timeout=budget + 180)
     vlib.finish(PID, tier, "exploration", res, t0, ASSUME,
-                "bounded-exhaustive structural enumeration per entry point: ZMQ C2SWrapper (wrapper shapes: secret/address lengths, source, extra fields) x ClientToStation payloads (transport, generation, support flags, covert, libver, 16 TransportParams Any shapes) x RegistrationResponse shapes, plus all byte strings <= 3 over an 8-symbol alphabet and every truncation / byte corruption of valid messages, through real parseRegMessage + ingestRegistration; HTTP register and registerBidirectional x method x Content-Length x body x X-Forwarded-For x RemoteAddr x server ClientConf generation; DNS wire parser (headers x token bodies x pointer chains), TXT / length-framing / name decoders on all strings <= 4 over an 8-symbol alphabet, responder query handling and Noise payloads, DNS registration request processing; ParseParams / SetSessionParams x libver x Any shapes; WrapConnection of every transport x 600 byte strings; non-trivial = input accepted by the component",
+                "bounded-exhaustive structural enumeration per entry point: ZMQ C2SWrapper (wrapper shapes: secret/address lengths, source, extra fields) x ClientToStation payloads (transport, generation, support flags, covert, libver, 16 TransportParams Any shapes) x RegistrationResponse shapes, plus all byte strings <= 3 over an 8-symbol alphabet and every truncation / byte corruption of valid messages, through real parseRegMessage + ingestRegistration; HTTP register and registerBidirectional x method x Content-Length x body x X-Forwarded-For x RemoteAddr x server ClientConf generation; DNS wire parser (headers x token bodies x pointer chains), TXT / length-framing / name decoders on all strings <= 4 over an 8-symbol alphabet, responder query handling and Noise payloads, DNS registration request processing; ParseParams / SetSessionParams x libver x Any shapes; the DTLS connecting transport's Connect x 100 shapes of the client-supplied source-address parameters x phantom family x libver (cancelled context, refusing DNAT: everything before the network, run inline); WrapConnection of every transport x 600 byte strings; non-trivial = input accepted by the component",
                 seed=seed)
 
 
